@@ -173,6 +173,13 @@ func (s *server) onAccept(conn Conn) {
 		return nil
 	})
 	s.connections.Store(fd, nconn)
+	// double check: the connection is already registered, so another poller may have closed it
+	// and run its close callbacks before the untrack callback above was added; that callback
+	// would then never fire and the closed connection would stay tracked for ever.
+	if !nconn.IsActive() {
+		nconn.Close()
+		s.connections.Delete(fd)
+	}
 
 	// trigger onConnect asynchronously
 	nconn.onConnect()
